@@ -1,0 +1,127 @@
+//go:build verif
+
+package node
+
+import (
+	"context"
+	"sync/atomic"
+	"time"
+
+	"github.com/go-logr/logr"
+	"go.opentelemetry.io/otel/trace/noop"
+	"k8s.io/client-go/tools/record"
+	"sigs.k8s.io/controller-runtime/pkg/client"
+	"sigs.k8s.io/controller-runtime/pkg/reconcile"
+
+	networkv1beta1 "github.com/AliyunContainerService/terway/pkg/apis/network.alibabacloud.com/v1beta1"
+	register "github.com/AliyunContainerService/terway/pkg/controller"
+	"github.com/AliyunContainerService/terway/pkg/vswitch"
+)
+
+// VerifPod is a pod as the IPAM sees it (PodRequest without the internal references).
+type VerifPod struct {
+	UID          string
+	RequireIPv4  bool
+	RequireIPv6  bool
+	RequireERDMA bool
+	IPv4         string
+	IPv6         string
+}
+
+func verifMapper(pods map[string]VerifPod) map[string]*PodRequest {
+	m := make(map[string]*PodRequest, len(pods))
+	for id, p := range pods {
+		m[id] = &PodRequest{PodUID: p.UID, RequireIPv4: p.RequireIPv4, RequireIPv6: p.RequireIPv6, RequireERDMA: p.RequireERDMA, IPv4: p.IPv4, IPv6: p.IPv6}
+	}
+	return m
+}
+
+// VerifAssign runs buildIPMap + assignIPFromLocalPool on the record (mutating it) and returns the pods left without address.
+func VerifAssign(pods map[string]VerifPod, enis map[string]*networkv1beta1.NetworkInterface, enableERDMA bool) []string {
+	mapper := verifMapper(pods)
+	v4, v6 := buildIPMap(mapper, enis)
+	left := assignIPFromLocalPool(logr.Discard(), mapper, v4, v6, enableERDMA)
+	var out []string
+	for id := range left {
+		out = append(out, id)
+	}
+	return out
+}
+
+// VerifRelease runs buildIPMap + releasePodNotFound on the record (mutating it).
+func VerifRelease(ctx context.Context, c client.Client, nodeName string, pods map[string]VerifPod, enis map[string]*networkv1beta1.NetworkInterface) {
+	mapper := verifMapper(pods)
+	v4, v6 := buildIPMap(mapper, enis)
+	releasePodNotFound(ctx, c, nodeName, mapper, v4, v6)
+}
+
+// VerifOption is one planned ENI operation (eniOptions).
+type VerifOption struct {
+	ENI       string // "" = a new interface
+	Type      string
+	Mode      string
+	AddIPv4N  int
+	AddIPv6N  int
+	IsFull    bool
+	LenV4     int
+	LenV6     int
+	ENIStatus string
+}
+
+// VerifPlan runs getEniOptions + assignEniWithOptions (interfaces that are not InUse are filtered out, as
+// validateENI does before it looks at the vSwitch).
+func VerifPlan(ctx context.Context, node *networkv1beta1.Node, normal, rdma int) []VerifOption {
+	options := getEniOptions(node)
+	ok := func(keys ...eniTypeKey) func(*eniOptions) bool {
+		return func(o *eniOptions) bool {
+			found := false
+			for _, k := range keys {
+				if k == o.eniTypeKey {
+					found = true
+				}
+			}
+			if !found {
+				return false
+			}
+			return o.eniRef == nil || o.eniRef.Status == "InUse"
+		}
+	}
+	assignEniWithOptions(ctx, node, normal+node.Spec.Pool.MinPoolSize, options, ok(secondaryKey, trunkKey))
+	assignEniWithOptions(ctx, node, rdma, options, ok(rdmaKey))
+	var out []VerifOption
+	for _, o := range options {
+		v := VerifOption{Type: string(o.eniTypeKey.ENIType), Mode: string(o.eniTypeKey.NetworkInterfaceTrafficMode), AddIPv4N: o.addIPv4N, AddIPv6N: o.addIPv6N, IsFull: o.isFull}
+		if o.eniRef != nil {
+			v.ENI, v.LenV4, v.LenV6, v.ENIStatus = o.eniRef.ID, len(o.eniRef.IPv4), len(o.eniRef.IPv6), o.eniRef.Status
+		}
+		out = append(out, v)
+	}
+	return out
+}
+
+// VerifTrim runs adjustPool (mark idle surplus beyond MaxPoolSize for deletion) with no GC period.
+func VerifTrim(node *networkv1beta1.Node) error {
+	n := &ReconcileNode{tracer: noop.NewTracerProvider().Tracer("verif")}
+	ctx := context.WithValue(context.Background(), ctxMetaKey{}, &NodeStatus{NeedSyncOpenAPI: &atomic.Bool{}, StatusChanged: &atomic.Bool{}})
+	return n.adjustPool(ctx, node)
+}
+
+// VerifMergeIPMap exposes mergeIPMap.
+func VerifMergeIPMap(remote, current map[string]*networkv1beta1.IP) {
+	mergeIPMap(logr.Discard(), remote, current)
+}
+
+// VerifNewReconcileNode builds the per-node IPAM reconciler over injected clients.
+func VerifNewReconcileNode(c client.Client, ali register.Interface, vsw *vswitch.SwitchPool, fullSync, gcPeriod time.Duration) reconcile.Reconciler {
+	return &ReconcileNode{
+		client:             c,
+		scheme:             c.Scheme(),
+		record:             record.NewFakeRecorder(4096),
+		aliyun:             ali,
+		vswpool:            vsw,
+		fullSyncNodePeriod: fullSync,
+		gcPeriod:           gcPeriod,
+		tracer:             noop.NewTracerProvider().Tracer("verif"),
+		eniBatchSize:       5,
+	}
+}
